@@ -18,6 +18,7 @@ import (
 	"sort"
 	"strings"
 	"sync"
+	"time"
 
 	pb "github.com/jamf/regatta/regattapb"
 	"github.com/jamf/regatta/storage/table/fsm"
@@ -128,6 +129,11 @@ func buildScenarioX(seed int64, small, big bool) *scenario {
 			}
 			s.Steps = append(s.Steps, step{Kind: "apply", N: c})
 			pos += c
+			if big && g.R.Intn(3) > 0 {
+				// the store is left alone until its background work (memtable flush) has ended, then
+				// synced: a Sync() that finds nothing in flight
+				s.Steps = append(s.Steps, step{Kind: "idle"}, step{Kind: "sync"})
+			}
 		case k < 7:
 			s.Steps = append(s.Steps, step{Kind: "sync"})
 		case k < 8:
@@ -227,6 +233,17 @@ func execute(s *scenario, k int) *outcome {
 			}
 			pos += st.N
 			cur = s.entries[pos-1].Index
+		case "idle":
+			if !fs.Crashed() {
+				for stable, last, i := 0, fs.Ops(), 0; stable < 3 && i < 150; i++ {
+					time.Sleep(12 * time.Millisecond)
+					if n := fs.Ops(); n == last {
+						stable++
+					} else {
+						stable, last = 0, n
+					}
+				}
+			}
 		case "sync":
 			fs.SetPhase("sync")
 			err := t.SM.Sync()
@@ -431,7 +448,7 @@ func main() {
 	var jobs []job
 	nSmall, nBig := r.Pick(14, 150), r.Pick(8, 250)
 	perBig := r.Pick(60, 150)
-	nHuge := r.Pick(2, 24)
+	nHuge := r.Pick(3, 24)
 	for i := 0; i < nSmall+nBig+nHuge; i++ {
 		small := i < nSmall
 		s := buildScenarioX(r.Seed*1_000_003+int64(i), small, i >= nSmall+nBig)
